@@ -16,7 +16,7 @@ import (
 var Shapes = []string{
 	"text", "textcrlf", "html", "cyrillic", "cjk", "utf8big", "dna", "numeric", "base64",
 	"elfx86", "pe", "elfarm64", "elfbogus", "pebogus", "machobogus", "wav", "bmp", "ppm", "runs", "zeros",
-	"skewed", "raredom", "ramp255", "ramp256", "smallalpha", "periodic", "random", "magicmix", "repeatblocks", "sorted", "utf8dirty", "longruns", "farmatch", "crlfcut", "constchunks", "randtext", "bigvocab", "fsdstress", "ffmix", "wordlist", "wordlist3", "staircase", "staircase2", "clusterq", "fibword", "thuemorse", "bigperiod", "utfcont", "rangeedge", "vocabrepeat",
+	"skewed", "raredom", "ramp255", "ramp256", "smallalpha", "periodic", "random", "magicmix", "repeatblocks", "sorted", "utf8dirty", "longruns", "farmatch", "crlfcut", "constchunks", "randtext", "bigvocab", "fsdstress", "ffmix", "wordlist", "wordlist3", "staircase", "staircase2", "clusterq", "fibword", "thuemorse", "bigperiod", "utfcont", "rangeedge", "vocabrepeat", "nulblocks",
 }
 
 var words = strings.Fields(`the of and to a in is that it was for on are as with his they at be this from have or by one had not but what all were
@@ -320,6 +320,12 @@ func Make(shape string, n int, seed int64) []byte {
 			}
 		}
 		b = b[:n]
+	case "nulblocks":
+		// html whose bytes at every multiple of 1 MiB are 0 (the smallest symbol at the very start of multi-MiB blocks)
+		b = Make("html", n, seed+9)
+		for i := 0; i < len(b); i += 1 << 20 {
+			b[i] = 0
+		}
 	case "vocabrepeat":
 		// 85 % of the block: words that are (almost surely) all different; last 15 %: the most recent of those words again, in
 		// order - references to dictionary entries with the highest indexes a block of this size can create
